@@ -28,15 +28,17 @@ Proof. exact code_params_ok. Qed.
 Theorem scope_agrees_params : forall P t, params_ok P -> tree_plain t = true ->
   match interp_spec_pre t with
   | Unspec => True
-  | r => interp_impl_pre P t = r
+  | r => norm_pre (interp_impl_pre P t) = r
   end.
 Proof. exact scope_agrees_any. Qed.
 
-(* scope_agrees: THE statement about the code as it is in /repo *)
+(* scope_agrees: THE statement about the code as it is in /repo.  norm_pre only
+   identifies the root namespaces NULL and "" (both the null namespace), which the
+   code distinguishes after "/INCLUDE file ." *)
 Theorem scope_agrees : forall t, tree_plain t = true ->
   match interp_spec_pre t with
   | Unspec => True
-  | r => interp_impl_pre code_params t = r
+  | r => norm_pre (interp_impl_pre code_params t) = r
   end.
 Proof. exact scope_agrees_code. Qed.
 
@@ -91,7 +93,7 @@ Proof. exact raw_file_has_no_affix. Qed.
 Theorem reference_rule : forall P t po, params_ok P -> tree_plain t = true ->
   interp_spec_pre t = Ok po ->
   exists st, spec_run t spec_init = Ok st /\
-             interp_impl_pre P t = Ok po /\
+             norm_pre (interp_impl_pre P t) = Ok po /\
              po_ref po = match s_lastref st with
                          | Some c => RefCode c
                          | None => RefFirst (first_raw (s_ent st))
@@ -165,7 +167,7 @@ Proof. exact follow_sound. Qed.
    leading dot; taken as a premise here) *)
 Theorem open_agrees : forall t po, tree_plain t = true ->
   interp_spec_pre t = Ok po -> uniq (po_entries po) ->
-  interp_impl code_params t = interp_spec t.
+  norm_fin (interp_impl code_params t) = interp_spec t.
 Proof. exact fin_agrees. Qed.
 
 (* API-built inclusions, fragment-attribute part: gd_include_affix / gd_include_ns
